@@ -7,11 +7,14 @@ rejects a document that lacks the element. `occurs (sites p)` is what the three 
 `CalculateAttributePaths`, `UpdateAttributesEffectiveChoice`, `MergeAttributes` leave of the
 element sites of a content model `p`; `Matches p w` is the language of `p` (independent of the
 code). Vocabulary (`names`, `distinctNames`, `wf`) and helper lemmas:
-`Proofs/OccursBasic`, `Proofs/OccursSound`, `Proofs/OccursList`. -/
+`Proofs/OccursBasic`, `Proofs/OccursSound`, `Proofs/OccursList`; named model groups and `xs:all`
+(section 3): model `Gen/Groups`, vocabulary (`namesG`, `distinctG`, `wfG`, `liveG`) and lemmas
+`Proofs/OccursGroups`. -/
 import XsdataModel.Gen.Occurs
 import XsdataModel.Proofs.OccursBasic
 import XsdataModel.Proofs.OccursSound
 import XsdataModel.Proofs.OccursList
+import XsdataModel.Proofs.OccursGroups
 
 namespace Props.C02
 open Py Xs.Gen
@@ -155,5 +158,133 @@ theorem nonlist_sound_false : ¬ NonlistSound := by
       choice := some 2, sequence := some 1 }
     (by decide) badP_matches badP_occurs (by decide) (by decide)
   exact absurd this (by decide)
+
+/-! ## 3. named model groups (`xs:group`) and `xs:all`
+
+`GMatches defs p` is the language of a content model `p` that may contain `xs:all` and references
+`<xs:group ref=… minOccurs maxOccurs/>` to the named groups `defs`; `occursG defs p` is what
+`SchemaMapper`, the UNGROUP step (`FlattenAttributeGroups` → `copy_group_attributes`: clones of
+the group's attrs, `path = reference's path ++ clone's path`, ids of the definition shared by all
+references) and the three FLATTEN handlers leave of it. Every reference gets its own occurrence
+product: the statements of section 1 hold class by class. -/
+
+/-- a running example: `<xs:group name="g"><xs:sequence>a, b?</xs:sequence></xs:group>` … -/
+def exDefs : GroupDefs := [(['g'], .seq 1 1 [.elem ['a'] 1 1, .elem ['b'] 0 1])]
+/-- … referenced once inside a sequence: `(x, g)` … -/
+def exT1 : GParticle := .seq 1 1 [.elem ['x'] 1 1, .ref ['g'] 1 1]
+/-- … and as the whole content with `minOccurs="0" maxOccurs="unbounded"`: `g*` -/
+def exT2 : GParticle := .ref ['g'] 0 maxsize
+/-- `xs:all(p, q?)` -/
+def exT3 : GParticle := .all 1 1 [.elem ['p'] 1 1, .elem ['q'] 0 1]
+
+theorem exG_word_a : groupLang exDefs 1 ['g'] [['a']] :=
+  (groupLang_succ (k := 0) rfl).2 (gmatchesW_seq.2 ⟨[[['a']]], by decide, (by
+    intro x hx
+    rw [List.mem_singleton.1 hx]
+    exact gseqOnce_cons.2 ⟨[['a']], [], gmatchesW_elem.2 ⟨1, by decide, rfl⟩,
+      gseqOnce_cons.2 ⟨[], [], gmatchesW_elem.2 ⟨0, by decide, rfl⟩, gseqOnce_nil.2 rfl, rfl⟩,
+      rfl⟩), rfl⟩)
+
+/-- `[x, a]` is a word of `(x, g)` -/
+theorem exT1_matches : GMatches exDefs exT1 [['x'], ['a']] :=
+  gmatchesW_seq.2 ⟨[[['x'], ['a']]], by decide, (by
+    intro y hy
+    rw [List.mem_singleton.1 hy]
+    exact gseqOnce_cons.2 ⟨[['x']], [['a']], gmatchesW_elem.2 ⟨1, by decide, rfl⟩,
+      gseqOnce_cons.2 ⟨[['a']], [], gmatchesW_ref.2 ⟨[[['a']]], by decide, (by
+        intro z hz
+        rw [List.mem_singleton.1 hz]
+        exact exG_word_a), rfl⟩, gseqOnce_nil.2 rfl, rfl⟩, rfl⟩), rfl⟩
+
+/-- `[q, p]` is a word of `xs:all(p, q?)`: any order -/
+theorem exT3_matches : GMatches exDefs exT3 [['q'], ['p']] :=
+  gmatchesW_all.2 ⟨[[['q'], ['p']]], by decide, (by
+    intro y hy
+    rw [List.mem_singleton.1 hy]
+    exact ⟨[['p'], ['q']], gseqOnce_cons.2 ⟨[['p']], [['q']], gmatchesW_elem.2 ⟨1, by decide, rfl⟩,
+      gseqOnce_cons.2 ⟨[['q']], [], gmatchesW_elem.2 ⟨1, by decide, rfl⟩, gseqOnce_nil.2 rfl, rfl⟩,
+      rfl⟩, List.Perm.swap _ _ _⟩), rfl⟩
+
+/-- the class of `(x, g)`: `x`, `a` required, `b` optional … -/
+theorem exT1_occurs : occursG exDefs exT1 = some [
+    { name := ['x'], index := 6, min := 1, max := 1, path := [⟨.s, 5, 1, 1⟩],
+      choice := none, sequence := some 5 },
+    { name := ['a'], index := 3, min := 1, max := 1,
+      path := [⟨.s, 5, 1, 1⟩, ⟨.g, 7, 1, 1⟩, ⟨.g, 1, 1, 1⟩, ⟨.s, 2, 1, 1⟩],
+      choice := none, sequence := some 5 },
+    { name := ['b'], index := 4, min := 0, max := 1,
+      path := [⟨.s, 5, 1, 1⟩, ⟨.g, 7, 1, 1⟩, ⟨.g, 1, 1, 1⟩, ⟨.s, 2, 1, 1⟩],
+      choice := none, sequence := some 5 }] := by
+  decide
+
+/-- … the class of `g*`: the same two declarations (same ids `1`, `2` of the definition on the
+path, same `index`), now optional lists: each reference has its own occurrence product -/
+theorem exT2_occurs : occursG exDefs exT2 = some [
+    { name := ['a'], index := 3, min := 0, max := maxsize,
+      path := [⟨.g, 5, 0, maxsize⟩, ⟨.g, 1, 1, 1⟩, ⟨.s, 2, 1, 1⟩],
+      choice := none, sequence := some 2 },
+    { name := ['b'], index := 4, min := 0, max := maxsize,
+      path := [⟨.g, 5, 0, maxsize⟩, ⟨.g, 1, 1, 1⟩, ⟨.s, 2, 1, 1⟩],
+      choice := none, sequence := some 2 }] := by
+  decide
+
+theorem exT3_occurs : occursG exDefs exT3 = some [
+    { name := ['p'], index := 6, min := 1, max := 1, path := [⟨.a, 5, 1, 1⟩] },
+    { name := ['q'], index := 7, min := 0, max := 1, path := [⟨.a, 5, 1, 1⟩] }] := by
+  decide
+
+/-- **Groups and `xs:all`: a non-list field never sees its element twice.** For every schema
+`defs`, every content model `p` over it whose expansion uses each element name once, every word
+of its language and every field the generator produces for the class. -/
+theorem nonlist_sound_groups (defs : GroupDefs) (p : GParticle) (hd : distinctG defs p = true)
+    (w : List Str) (hw : GMatches defs p w)
+    (ss : List Site) (h : occursG defs p = some ss) (s : Site) (hs : s ∈ ss)
+    (hl : s.isList = false) : w.count s.name ≤ 1 :=
+  nonlist_sound_groups_core defs p (of_decide_eq_true hd) w hw ss h s hs hl
+
+/-- the hypotheses are satisfiable: field `a` of `(x, g)`, word `[x, a]` -/
+example : List.count ['a'] [['x'], ['a']] ≤ 1 :=
+  nonlist_sound_groups exDefs exT1 (by decide) _ exT1_matches _ exT1_occurs
+    { name := ['a'], index := 3, min := 1, max := 1,
+      path := [⟨.s, 5, 1, 1⟩, ⟨.g, 7, 1, 1⟩, ⟨.g, 1, 1, 1⟩, ⟨.s, 2, 1, 1⟩],
+      choice := none, sequence := some 5 } (by decide) (by decide)
+
+/-- **Groups and `xs:all`: a required non-list field always finds its element exactly once.** -/
+theorem required_sound_groups (defs : GroupDefs) (p : GParticle) (hd : distinctG defs p = true)
+    (hwf : wfG defs p = true) (w : List Str) (hw : GMatches defs p w)
+    (ss : List Site) (h : occursG defs p = some ss) (s : Site) (hs : s ∈ ss)
+    (hr : s.min ≥ 1) (hl : s.isList = false) : w.count s.name = 1 :=
+  required_sound_groups_core defs p (of_decide_eq_true hd) hwf w hw ss h s hs hr hl
+
+/-- the hypotheses are satisfiable: field `a` of `(x, g)`, word `[x, a]` … -/
+example : List.count ['a'] [['x'], ['a']] = 1 :=
+  required_sound_groups exDefs exT1 (by decide) (by decide) _ exT1_matches _ exT1_occurs
+    { name := ['a'], index := 3, min := 1, max := 1,
+      path := [⟨.s, 5, 1, 1⟩, ⟨.g, 7, 1, 1⟩, ⟨.g, 1, 1, 1⟩, ⟨.s, 2, 1, 1⟩],
+      choice := none, sequence := some 5 } (by decide) (by decide) (by decide)
+
+/-- … and field `p` of `xs:all(p, q?)` with the word `[q, p]` -/
+example : List.count ['p'] [['q'], ['p']] = 1 :=
+  required_sound_groups exDefs exT3 (by decide) (by decide) _ exT3_matches _ exT3_occurs
+    { name := ['p'], index := 6, min := 1, max := 1, path := [⟨.a, 5, 1, 1⟩] }
+    (by decide) (by decide) (by decide)
+
+/-- **Groups and `xs:all`: list fields are needed** (`resolves`, every reference names a group, not
+circularly, is implied by `occursG … = some _`). -/
+theorem list_needed_groups (defs : GroupDefs) (p : GParticle) (hd : distinctG defs p = true)
+    (hwf : wfG defs p = true) (hlive : liveG defs p = true)
+    (ss : List Site) (h : occursG defs p = some ss) (s : Site) (hs : s ∈ ss)
+    (hl : s.isList = true) : ∃ w, GMatches defs p w ∧ 2 ≤ w.count s.name :=
+  list_needed_groups_core defs p (of_decide_eq_true hd) hwf hlive ss h s hs hl
+
+/-- the hypotheses are satisfiable: field `a` of `g*` -/
+example : ∃ w, GMatches exDefs exT2 w ∧ 2 ≤ w.count ['a'] :=
+  list_needed_groups exDefs exT2 (by decide) (by decide) (by decide) _ exT2_occurs
+    { name := ['a'], index := 3, min := 0, max := maxsize,
+      path := [⟨.g, 5, 0, maxsize⟩, ⟨.g, 1, 1, 1⟩, ⟨.s, 2, 1, 1⟩],
+      choice := none, sequence := some 2 } (by decide) (by decide)
+
+/-- a dangling reference makes generation fail (`CodegenError: Unknown group reference`) -/
+theorem dangling_reference_fails : occursG exDefs (.ref ['h'] 1 1) = none := by decide
 
 end Props.C02
